@@ -17,10 +17,11 @@ class LibMixin:
             return 'CC_%s(%s, %s)' % (name.upper(), self.expr(args[0]), self.expr(args[1]))
         if name in ('size', 'ssize', 'empty', 'begin', 'end', 'cbegin', 'cend', 'data', 'rbegin', 'rend') and len(args) == 1:
             at = self.etype(args[0])
-            if name == 'empty' and at.kind == 'rec':
-                # std::empty(x) -> x.empty()
+            if at.kind == 'rec' and name in ('empty', 'size', 'begin', 'end'):
+                # std::empty(x) / std::begin(x) ... on a record of the repository -> its own member function
                 for c in at.rec.get('inner', []):
-                    if c.get('kind') == 'CXXMethodDecl' and c.get('name') == 'empty':
+                    if c.get('kind') == 'CXXMethodDecl' and c.get('name') == name and self.is_const_method(c):
+                        if self.is_external(c): return self.autostub_call(c, (args[0], False), [], n)
                         return self.method_call(c, args[0], False, [], n)
             m = {'cbegin': 'begin', 'cend': 'end'}.get(name, name)
             h = self.lib_method(at, m if m != 'ssize' else 'size', args[0], False, [], n, rvalue)
@@ -463,22 +464,54 @@ class LibMixin:
             ot = self.tyq(obj['type'])
             if ot.kind == 'ptr' and is_arrow: ot = ot.elem
             cst = 'const ' if self.is_const_method(d) else ''
+            if owner is not None and owner.get('name'):
+                # the stub's object type is the DECLARING class (a base of the static type is reached by a cast)
+                try:
+                    dt = self.ty(self.qname.get(owner['id'], owner['name']))
+                    if dt.c != ot.c: ot = dt; need_cast = True
+                    else: need_cast = False
+                except Unsupported: need_cast = False
+            else: need_cast = False
             ptxt.append('%s%s* this_' % (cst, ot.c))
             core = self.skip(obj)
+            ot0 = self.tyq(obj['type']); 
+            if ot0.kind == 'ptr' and is_arrow: ot0 = ot0.elem
             if is_arrow: atxt.append(self.expr(obj))
             elif self.is_lv(core):
-                atxt.append(self.addr(self.expr(obj)))
+                lvt = self.expr(obj)
+                if '.data[' in lvt and self.is_const_method(d) and self.inline_checks == 0:
+                    # const call on an element nested in a container: on a copy (CBMC 6.11 pitfall, DESIGN §2 item 8)
+                    tn = self.tmp('obj'); self.pre.append('%s %s = %s;' % (ot0.c, tn, lvt)); atxt.append('&' + tn)
+                    self.rules['nested-element-const-call-by-copy'] += 1
+                else:
+                    atxt.append(self.addr(lvt))
             else:
-                tn = self.tmp('obj'); self.pre.append('%s %s = %s;' % (ot.c, tn, self.expr(obj))); atxt.append('&' + tn)
+                tn = self.tmp('obj'); self.pre.append('%s %s = %s;' % (ot0.c, tn, self.expr(obj))); atxt.append('&' + tn)
+            try:
+                oc = self.tyq(core['type'])
+                if oc.kind == 'ptr' and is_arrow: oc = oc.elem
+                if oc.c != ot.c: need_cast = True
+            except Unsupported: pass
+            if need_cast: atxt[-1] = '((%s%s*)%s)' % (cst, ot.c, atxt[-1])
         for i, p in enumerate(ps):
             pt = self.tyq(p['type']); st = self.param_storage(p)
             nm = p.get('name') or 'a%d' % i
             ptxt.append(('%s%s* %s' % ('const ' if pt.const else '', pt.c, nm)) if st == 'ptr' else '%s %s' % (pt.c, nm))
         atxt += self.call_args(d, args)
+        self.wb = None if not self.wb else self.wb
         rt = self.ret_type(d)
         if rt.ref and (not rt.const or self.big(rt)) and rt.kind != 'void': rc = rt.c + '*'
         else: rc = rt.c
         proto = '%s %s(%s);' % (rc, cn, ', '.join(ptxt) or 'void')
+        if cn in self.autostubs and self.autostubs[cn] != proto:
+            # instantiations of one template (or overloads reached through different declarations) with different
+            # signatures: one stub per signature, named after the parameter types
+            sfx = '__' + '_'.join(cident(re.sub(r'\b(const|this_)\b|[\*&]', '', x).split()[0]) for x in ptxt[(1 if objinfo is not None and not self.is_static_method(d) else 0):]) if len(ptxt) > (1 if objinfo is not None and not self.is_static_method(d) else 0) else '__alt'
+            cn = cn + sfx
+            proto = '%s %s(%s);' % (rc, cn, ', '.join(ptxt) or 'void')
+            if cn in self.autostubs and self.autostubs[cn] != proto:
+                raise Unsupported('two different signatures for auto-stub %s' % cn)
+            self.rules['auto-stub-per-signature'] += 1
         if cn not in self.autostubs:
             self.autostubs[cn] = proto
             self.fninfo.setdefault(cn, {'qname': self.qname.get(d['id']), 'stub': True})
